@@ -139,6 +139,7 @@ type connPlan struct {
 	failKeep int // bytes accepted by the failing Write
 	shortPct int // chance of a short (n < len, nil) Write
 	gateAt   int // index of the Write call that blocks on the gate (-1 never)
+	gateDrop bool // block the first Write that carries the body of a Dropped frame
 	seed     uint64
 }
 
@@ -158,6 +159,8 @@ type vconn struct {
 	peerOne sync.Once
 	doneOne sync.Once
 	gate    chan struct{}
+
+	gatedOnce bool // connection goroutine only
 }
 
 func (c *vconn) Write(b []byte) (int, error) {
@@ -170,7 +173,8 @@ func (c *vconn) Write(b []byte) (int, error) {
 		c.run.netrec(vrec{ev: "W", conn: c.idx, err: true})
 		return 0, io.ErrClosedPipe
 	}
-	if i == c.plan.gateAt {
+	if i == c.plan.gateAt || (c.plan.gateDrop && !c.gatedOnce && len(b) == 25 && b[8] == 0) {
+		c.gatedOnce = true
 		c.run.netrec(vrec{ev: "Gate", conn: c.idx})
 		select {
 		case c.run.gateSig <- c:
@@ -271,7 +275,7 @@ func (r *vrun) dial(ctx context.Context, addr string) (net.Conn, error) {
 func makePlan(rng *vrng, profile string) runPlan {
 	p := runPlan{dialFail: map[int]bool{}, closeAt: -1}
 	p.emitters = 1 + rng.n(8)
-	p.buf = []int{1, 1, 2, 2, 3, 4, 6, 8}[rng.n(8)]
+	p.buf = []int{1, 1, 2, 2, 3, 4, 8, 16}[rng.n(8)]
 	p.perEm = 2 + rng.n(24)
 	if p.emitters*p.perEm > 140 {
 		p.perEm = 140 / p.emitters
@@ -306,6 +310,8 @@ func makePlan(rng *vrng, profile string) runPlan {
 			if cp.gateAt == cp.failAt {
 				cp.gateAt++
 			}
+		} else if rng.pct(15) {
+			cp.gateDrop = true
 		}
 		p.connPlans = append(p.connPlans, cp)
 	}
@@ -324,7 +330,7 @@ func makePlan(rng *vrng, profile string) runPlan {
 		p.boomPct = 1 + rng.n(6)
 	}
 	p.yieldPct = []int{0, 5, 20, 50, 90}[rng.n(5)]
-	p.sleepPct = []int{0, 0, 2, 10}[rng.n(4)]
+	p.sleepPct = []int{0, 2, 10, 30}[rng.n(4)]
 	p.postCalls = rng.n(3)
 	return p
 }
